@@ -33,6 +33,13 @@ def handle (op : String) (a r : Json) : Except String Reply := do
     pure { m := m, prop := some holds,
            why := if holds then "" else "notice handed to the wrong sockets, or a dial cancelled / not cancelled against the rule",
            sig := if holds then "" else "C16/deliver/socket-filter-or-dial-cancel" }
+  | "churn" =>
+    -- liveness only: whatever sockets are closed meanwhile, the sender's notices arrive and the node keeps working
+    let m := jObj [("ok", jObj [("live", Json.bool true)])]
+    let holds := r == m
+    pure { m := m, prop := some holds,
+           why := if holds then "" else "closing unrelated sockets while a notice was being fanned out wedged the node's notice delivery",
+           sig := if holds then "" else "C16/churn/notice-delivery-wedged" }
   | _ => throw s!"bad-op unreach {op}"
 
 end Receptor.Drive.Unreach
